@@ -311,3 +311,4 @@ def run(eng: Engine, ck: Check):
         ck.ob('R-C17-KEY', w, k, 'the key encoding is injective on (username, remote_path, direction): different transfers never share a key',
               injective, f'key material `{unparse(material)}` concatenates {len(var_strs)} variable-length strings without a delimiter or length prefix: '
               '("ab","c") and ("a","bc") hash to the same key, one record overwrites the other', construct='key injective')
+    defs.job_raises_nothing_typed(eng, ck, 'R-C17-REPAIR', TM, 'TransferManager._management_job', 'loaded transfers are picked up by the scheduling job, which runs before the first login')
